@@ -12,7 +12,7 @@ import time
 from lib import (COQ, WORKROOT, Lock, TieCheck, build_harness, go_env, parse_coq_prints, qflags, sh)
 
 DIAG = """From Coq Require Import List Bool NArith.
-From FoxC06 Require Import Graph GenCallGraph Entries.
+From FoxC06 Require Import Graph GenCallGraph Entries Skeleton.
 Import ListNotations.
 Definition bad_reads := Eval vm_compute in
   map (fun e => N.to_nat (fst e)) (filter (fun e => reaches writer_blocking graph [e]) read_entries).
@@ -27,9 +27,26 @@ Print write_locks.
 Definition read_locks := Eval vm_compute in
   match locks_from graph read_entries with Some l => map N.to_nat l | None => [] end.
 Print read_locks.
+Definition unexpected_shared := Eval vm_compute in
+  map N.to_nat (filter (fun k => memN k read_by_readers && negb (mem_str (fname k) expected_shared)) written_by_writers).
+Print unexpected_shared.
+Fixpoint idx_not_in {A} (p : A -> bool) (i : nat) (l : list A) : list nat :=
+  match l with [] => [] | x :: r => (if p x then [] else [i]) ++ idx_not_in p (S i) r end.
+Definition shape_changed := Eval vm_compute in
+  idx_not_in (fun r => existsb (fun e => shapes_eqb [r] [e]) expected_shapes) 0 shape_table.
+Print shape_changed.
+Definition inventory_changed := Eval vm_compute in
+  idx_not_in (fun x => mem_str x expected_sync_inventory) 0 sync_inventory.
+Print inventory_changed.
+Definition inventory_missing := Eval vm_compute in
+  idx_not_in (fun x => mem_str x sync_inventory) 0 expected_sync_inventory.
+Print inventory_missing.
+Definition pins_ok := Eval vm_compute in
+  (if sync_inventory_b then [] else [1]) ++ (if shared_b then [] else [2]) ++ (if shapes_b then [] else [3]).
+Print pins_ok.
 """
 
-BLOCKING = ("Acquire(fox.Router.mu)", "ChanOp", "Select", "CondWait", "WaitGroupWait")
+BLOCKING = ("Acquire(fox.Router.mu)", "ChanOp", "Select", "CondWait", "WaitGroupWait", "Sleep", "SpinLoad")
 
 
 class C06(TieCheck):
@@ -44,6 +61,7 @@ class C06(TieCheck):
         "interface calls -> that method of every package type implementing the interface; calls leaving the analysed packages -> what the callee "
         "can call back through the static types it is handed; blocking leaves per lock object",
         "coq/C06/Entries.v: the hand classification of entry points into read / write (checked for coverage against the generated list of exported methods)",
+        "coq/C06/Skeleton.v: hand-pinned sync inventory / shared fields / loop-atomic shapes; Sleep and SpinLoad leaves are lint-strength (direct calls only inside loops)",
         "harness/cmd/c06: parked-writer experiments are runtime sampling (timeouts), not proof",
     ]
     assumptions = [
@@ -128,6 +146,22 @@ class C06(TieCheck):
         for fid in pr.get("unclassified", []):
             out.append("entry classification: exported method %s is neither a read nor a write entry point in coq/C06/Entries.v"
                        % (names[fid] if fid < len(names) else fid))
+        flds = cg.get("fields", [])
+        for k in pr.get("unexpected_shared", []):
+            out.append("shared state: %s is written on the write path and read on the read path but is not one of the pinned shared fields "
+                       "(coq/C06/Skeleton.v expected_shared): a new way for readers to observe writers" % (flds[k] if k < len(flds) else k))
+        rows = cg.get("shape_rows") or []
+        for k in pr.get("shape_changed", []):
+            out.append("skeleton: the loop / atomic shape of a Router/Txn method differs from the pinned one (Skeleton.v expected_shapes): %s"
+                       % (rows[k] if k < len(rows) else k))
+        inv = cg.get("sync_inventory") or []
+        for k in pr.get("inventory_changed", []):
+            out.append("skeleton: new synchronisation / communication object, not in the pinned inventory (Skeleton.v expected_sync_inventory): %s"
+                       % (inv[k] if k < len(inv) else k))
+        if pr.get("inventory_missing"):
+            out.append("skeleton: %d pinned synchronisation object(s) no longer exist in the source" % len(pr["inventory_missing"]))
+        if pr.get("pins_ok") and not (pr.get("unexpected_shared") or pr.get("shape_changed") or pr.get("inventory_changed") or pr.get("inventory_missing")):
+            out.append("skeleton: a pinned table of coq/C06/Skeleton.v no longer matches the source (table(s) %s: 1 = sync inventory, 2 = shared fields, 3 = method shapes)" % pr["pins_ok"])
         locks = cg.get("locks", [])
         wl = [locks[i] if i < len(locks) else str(i) for i in pr.get("write_locks", [])]
         rl = [locks[i] if i < len(locks) else str(i) for i in pr.get("read_locks", [])]
@@ -169,10 +203,10 @@ class C06(TieCheck):
                 groups.setdefault((v["kind"], v["entry"]), []).append(v)
             for (kind, entry), vs in sorted(groups.items()):
                 v = vs[0]
-                dsc = "%s: entry=%s stage=%s options=%s — %s" % (kind, entry, v["stage"], v["options"], v["detail"])
+                dsc = "%s: entry=%s router=%s stage=%s options=%s — %s" % (kind, entry, v.get("router_state", "?"), v["stage"], v["options"], v["detail"])
                 if len(vs) > 1:
                     dsc += " [same entry point failed in %d setups: %s]" % (
-                        len(vs), "; ".join("%s/%s" % (x["stage"], x["options"]) for x in vs[1:6]))
+                        len(vs), "; ".join("%s/%s/%s" % (x.get("router_state", "?"), x["stage"], x["options"]) for x in vs[1:6]))
                 viol.append((dsc, dict(kind=kind, entry=entry, setups=vs)))
         return viol
 
